@@ -5,6 +5,7 @@ package vos
 import (
 	"io/fs"
 	"os"
+	"time"
 
 	zzvrt "github.com/go-spring/log/zzvrt"
 )
@@ -131,6 +132,47 @@ func MkdirAll(name string, perm FileMode) error {
 		return x.FS.Mkdir(name)
 	}
 	return os.MkdirAll(name, perm)
+}
+
+func Chtimes(name string, atime, mtime time.Time) error {
+	if x := zzvrt.Cur(); x != nil {
+		return x.FS.Chtimes(name, mtime)
+	}
+	return os.Chtimes(name, atime, mtime)
+}
+
+func Chmod(name string, mode FileMode) error {
+	if x := zzvrt.Cur(); x != nil {
+		_, err := x.FS.Stat(name)
+		return err
+	}
+	return os.Chmod(name, mode)
+}
+
+func Truncate(name string, size int64) error {
+	f, err := OpenFile(name, O_WRONLY, 0)
+	if err != nil {
+		return err
+	}
+	err = f.Truncate(size)
+	if e := f.Close(); err == nil {
+		err = e
+	}
+	return err
+}
+
+func Executable() (string, error)  { return os.Executable() }
+func UserHomeDir() (string, error) { return os.UserHomeDir() }
+func Getuid() int                  { return os.Getuid() }
+func Geteuid() int                 { return os.Geteuid() }
+func Getppid() int                 { return 4241 }
+func Environ() []string            { return os.Environ() }
+func ExpandEnv(s string) string    { return os.ExpandEnv(s) }
+func SameFile(a, b FileInfo) bool {
+	return a.Name() == b.Name() && a.ModTime().Equal(b.ModTime()) && a.Size() == b.Size()
+}
+func NewFile(fd uintptr, name string) *File {
+	return zzvrt.WrapReal(os.NewFile(fd, name))
 }
 
 func ReadFile(name string) ([]byte, error) {
